@@ -1036,6 +1036,8 @@ def run(chk):   # noqa
     _selfpipe_rule(chk, prog)
     _bucketbound_rule(chk, prog)
     _deinitunpack_rule(chk, prog)
+    _lockeach_rule(chk, prog)
+    _swapshape_rule(chk, prog)
 
 
 def _sweepreset_rule(chk, prog):
@@ -1471,7 +1473,14 @@ def _deinitunpack_rule(chk, prog):
     pops = [c for c in fn.calls("janet_q_pop") if "items" in c.text()]
     unp = fn.calls("janet_chan_unpack")
     if not pops:
-        raise AnalysisBroken("janet_chan_deinit no longer drains the item queue")
+        # not drained with janet_q_pop: an in-place walk has to cover both segments of a wrapped ring, which only the
+        # pop knows how to do; report it rather than stop
+        chk.violation(rule, "ev.c", "janet_chan_deinit", "items", fn.loc,
+                      "janet_chan_deinit no longer takes the undelivered messages off the queue with janet_q_pop: a walk over head .. tail "
+                      "visits nothing when the ring has wrapped, and every message still queued keeps its transit buffer and the "
+                      "references it owns")
+        chk.floor(rule, 1)
+        return
     loops = [x for x in fn.nodes if x.k in ("while", "for", "do") and any(c in pops for c in x.walk() if c.k == "call")]
     ok = bool(unp) and any(any(c in unp for c in l.walk() if c.k == "call") for l in loops)
     if ok:
@@ -1480,4 +1489,78 @@ def _deinitunpack_rule(chk, prog):
         chk.violation(rule, "ev.c", "janet_chan_deinit", "items", pops[0].loc,
                       "janet_chan_deinit drains the item queue of a threaded channel without passing the messages to janet_chan_unpack: "
                       "the descriptors and shared-abstract references a packed message owns are never released")
+    chk.floor(rule, 1)
+
+
+def _lockeach_rule(chk, prog):
+    """ev/select takes the mutex of every clause's channel up front and gives each back clause by clause (the mutexes
+    are recursive, so a channel named twice is locked twice).  Taking it once per DISTINCT channel while still giving
+    it back once per CLAUSE releases it early: the second clause then works on an unlocked channel and unlocks a mutex
+    its thread does not hold."""
+    rule = "C08-LOCKEACH"
+    chk.rule(rule, "chan_lock_args locks one mutex per clause: the lock call in its loop is under no condition and the loop skips nothing")
+    fn = prog.tus["ev.c"].funcs.get("chan_lock_args")
+    if fn is None:
+        chk.note("%s: no chan_lock_args in this tree; nothing to decide" % rule)
+        chk.floor(rule, 0, 0)
+        return
+    chk.analysed(fn)
+    chk.instance(rule)
+    locks = fn.calls(LOCK)
+    bad = None
+    if not locks:
+        raise AnalysisBroken("chan_lock_args no longer calls janet_chan_lock")
+    for c in locks:
+        q = c.parent
+        while q is not None and q.k not in ("for", "while", "do"):
+            if q.k == "if":
+                bad = (c, "sits under `if (%s)`" % q.kids[0].text()[:40])
+            q = q.parent
+        if q is not None and any(y.k == "continue" for y in q.walk()):
+            bad = (c, "shares its loop with a `continue`")
+    if bad is None:
+        chk.ok(rule, "chan_lock_args: one unconditional lock per clause")
+    else:
+        chk.violation(rule, "ev.c", "chan_lock_args", "skip", bad[0].loc,
+                      "the lock call of chan_lock_args %s, so some clauses take no mutex although every clause gives one back: with the same "
+                      "thread channel in two clauses the first clause's unlock releases it, the second clause runs unlocked and its unlock "
+                      "fails (`cannot release lock`)" % bad[1])
+    chk.floor(rule, 1)
+
+
+def _swapshape_rule(chk, prog):
+    """ev/rselect shuffles its clauses in place before it hands them to ev/select.  Each step has to be a swap - the
+    two slots exchange their contents - or a clause is lost and another one duplicated, and the select that follows is
+    not the one the program wrote."""
+    rule = "C08-SWAPSHAPE"
+    chk.rule(rule, "each step of the clause shuffle of ev/rselect is an exchange of two slots of argv (tmp = a[x]; a[x] = a[y]; a[y] = tmp)")
+    fn = prog.tus["ev.c"].funcs.get("fisher_yates_args")
+    if fn is None:
+        chk.note("%s: no fisher_yates_args in this tree; nothing to decide" % rule)
+        chk.floor(rule, 0, 0)
+        return
+    chk.analysed(fn)
+    chk.instance(rule)
+
+    def idx(e):
+        e = strip_casts(e)
+        if e.k == "sub" and is_ref(strip_casts(e.kids[0])):
+            return strip_casts(e.kids[0]).name, e.kids[1].text().replace(" ", "")
+        return None
+    tmp = [d for d in fn.nodes if d.k == "vardecl" and d.kids and idx(d.kids[0])]
+    stores = [x for x in fn.nodes if x.k == "asg" and x.op == "=" and idx(x.kids[0])]
+    ok = False
+    if tmp and len(stores) == 2:
+        a = idx(tmp[0].kids[0])                                   # tmp = arr[x]
+        s1 = next((s_ for s_ in stores if idx(s_.kids[0]) == a), None)                # arr[x] = arr[y]
+        s2 = next((s_ for s_ in stores if s_ is not s1), None)
+        if s1 is not None and s2 is not None and idx(s1.kids[1]) is not None:
+            b = idx(s1.kids[1])
+            ok = idx(s2.kids[0]) == b and is_ref(strip_casts(s2.kids[1])) and strip_casts(s2.kids[1]).name == tmp[0].name and a[0] == b[0]
+    if ok:
+        chk.ok(rule, "fisher_yates_args exchanges two slots per step")
+    else:
+        chk.violation(rule, "ev.c", "fisher_yates_args", "swap", fn.loc,
+                      "a step of fisher_yates_args is not an exchange of two slots (%s): a clause is overwritten and another duplicated, so "
+                      "ev/rselect waits on a different set of clauses than it was given" % "; ".join(x.text()[:40] for x in stores))
     chk.floor(rule, 1)
